@@ -148,6 +148,9 @@ impl MT101 {
                         // Instructing party variants
                         instructing =
                             parser.parse_optional_variant_field::<Field50InstructingParty>("50")?;
+                        // The ordering customer (option F, G or H) may follow the instructing party
+                        ordering = parser
+                            .parse_optional_variant_field::<Field50OrderingCustomerFGH>("50")?;
                     }
                     "F" | "G" | "H" => {
                         // Ordering customer variants
